@@ -337,9 +337,37 @@ def fock_sibling(ctx, s: Sib):
               fr_[0], fu, u.fi, hyp_r, hyp_b=hyp_u, what="dm_up = dm_dn = dm/2, h1[0] == h1[1]")
 
 
+def init_density_sibling(ctx, s: Sib):
+    """SIB-2: the SCF scans start from the trial's own density.  With the hypothesis used for the Fock sibling
+    (dm_up = dm_dn = dm / 2) the closed-shell starting density of rhf.optimize is the sum of the two spin blocks
+    uhf.optimize starts from when both spin sectors hold the same orbitals -- i.e. it carries the occupation 2."""
+    r = s.E("rhf", "optimize")
+    u = s.E("uhf", "optimize")
+    ro = strip_wrappers(getitem(r.result, const("mo_coeff")))
+    uo = strip_wrappers(getitem(u.result, const("mo_coeff")))
+    rs = [t for t in subterms(ro) if t.op == "call" and match_scan(t) is not None]
+    us = [t for t in subterms(uo) if t.op == "call" and match_scan(t) is not None]
+    if len(rs) != 1 or len(us) != 1:
+        ctx.rep.note("optimize: SCF scan not found; starting-density sibling not applicable")
+        return
+    ri, ui = match_scan(rs[0])[1], match_scan(us[0])[1]
+    u0, u1 = getitem(strip_wrappers(ui), const(0)), getitem(strip_wrappers(ui), const(1))
+    if (u0.op == "getitem" and u0.args[0] is strip_wrappers(ui)) or ri is None:
+        ctx.rep.note("uhf.optimize: starting density is not a pair of spin blocks; starting-density sibling not applicable")
+        return
+    total = mk("binop", "+", u0, u1)
+    mo = key(WD, "mo_coeff")
+    hyp_u = {key(WD, "mo_coeff", 0): mo, key(WD, "mo_coeff", 1): mo, nelec(1): nelec(0)}
+    s.cmp("SIB-2", "rhf.optimize / uhf.optimize: the closed-shell starting density is the sum of the two spin blocks "
+          "(occupation 2)", ri, total, r.fi, None, hyp_b=hyp_u, what="mo_coeff[0] == mo_coeff[1] == mo_coeff")
+
+
 def run(ctx):
+    from .c06 import optimize_leaves_propagation_inputs
+    optimize_leaves_propagation_inputs(ctx)
     eigh_jvp(ctx)
     s = Sib(ctx)
     whitelist(ctx, s)
     symmetry(ctx, s)
     fock_sibling(ctx, s)
+    init_density_sibling(ctx, s)
